@@ -6,7 +6,7 @@ path: checked by C16 and re-used here) and the front-end outcome rule below (eve
 (thorough 3) token texts from a 54-token alphabet, each in 8 context templates (top level, function body, parameter type,
 match arm, class body, impl header, use declaration, global) through lexer + parser with the lossless-tree checks; (2)
 repository files and their token-level / line-ending / unicode mutants through lexer, parser and the whole semantic
-analysis in-process; (3) a sample through the real `dora compile` driver incl. missing and unreadable inputs.
+analysis in-process; (2b) ~1800 literal spellings at the edges of the lexical grammar in 16 positions (sampled in quick); (3) a sample through the real `dora compile` driver incl. missing and unreadable inputs.
 A panic, an abort, a time-out, an out-of-file span or a success flag that contradicts the diagnostics is a violation.
 """
 import json, os, random, sys
@@ -14,7 +14,7 @@ from common import *
 from checks.c20 import harness_json, corpus_files
 from checks.c16 import panic_class
 sys.path.insert(0, os.path.join(VERIF, "gen"))
-import text_mutants
+import text_mutants, literals
 
 LEVEL = "exploration"
 MANIFEST = dict(
@@ -97,6 +97,60 @@ def run(ctx):
             if not e["in_file"]:
                 ctx.violation(f"diagnostic span outside the file for {path}: {e}", {"path": path, "diagnostic": e}, key="span-outside")
                 break
+    # (2b) literal spellings at the edges of the lexical grammar, in every position a literal can take, through the whole front end
+    lits = literals.literals()
+    ldir = os.path.join(ctx.work, "literals")
+    os.makedirs(ldir, exist_ok=True)
+    jobs = []                                     # (context, literal)
+    cnames = sorted(literals.CONTEXTS)
+    for i, L in enumerate(lits):
+        for c in (rng.sample(cnames, 2) if ctx.quick else cnames):
+            jobs.append((c, L))
+    per = 60
+    lfiles = {}
+    for n in range(0, len(jobs), per):
+        p = os.path.join(ldir, f"lit{n // per:04d}.dora")
+        chunk = jobs[n:n + per]
+        open(p, "w").write("\n".join(literals.CONTEXTS[c].format(k=n + j, L=L) for j, (c, L) in enumerate(chunk)) + "\nfn main() {}\n")
+        lfiles[p] = chunk
+    for j, L in enumerate(literals.loose()):
+        for c in ("let", "string", "pattern"):
+            p = os.path.join(ldir, f"loose{j:02d}_{c}.dora")
+            open(p, "w", newline="").write("fn main() {}\n" + literals.CONTEXTS[c].format(k=0, L=L) + "\n")
+            lfiles[p] = [(c, L)]
+
+    def judge(r, chunk, path):
+        if r["ok"] != (len(r["errors"]) == 0):
+            ctx.violation(f"success flag {r['ok']} contradicts {len(r['errors'])} reported errors for {path}", {"path": path}, key="success-flag")
+        for e in r["errors"] + r["warnings"]:
+            if not e["in_file"]:
+                ctx.violation(f"diagnostic span outside the file for literal input {chunk[:3]}: {e}", {"path": path, "diagnostic": e}, key="span-outside")
+                break
+    for r in sema_batch(ctx, sorted(lfiles), "literals"):
+        chunk = lfiles[r["path"]]
+        ctx.add("evaluations", len(chunk))
+        ctx.add("literal_inputs", len(chunk))
+        if "panic" not in r:
+            judge(r, chunk, r["path"])
+            continue
+        # attribute the panic: one file per literal of this chunk
+        singles = {}
+        for j, (c, L) in enumerate(chunk):
+            p = r["path"][:-5] + f"_s{j:02d}.dora"
+            open(p, "w", newline="").write("fn main() {}\n" + literals.CONTEXTS[c].format(k=0, L=L) + "\n")
+            singles[p] = (c, L)
+        hit = False
+        for r1 in sema_batch(ctx, sorted(singles), "literal_singles"):
+            c, L = singles[r1["path"]]
+            if "panic" in r1:
+                hit = True
+                msg = r1["panic"][:200]
+                ctx.violation(f"the front end panicked on the literal `{L}` in position `{c}` ({literals.CONTEXTS[c].format(k=0, L=L)}): {msg}",
+                              {"literal": L, "context": c, "text": open(r1["path"]).read(), "panic": r1["panic"]}, key="frontend-panic:" + panic_class(msg))
+        if not hit:
+            msg = r["panic"][:200]
+            ctx.violation(f"the front end panicked on {r['path']} (no single literal of it reproduces the panic): {msg}",
+                          {"path": r["path"], "text": open(r["path"]).read()[:20000], "panic": r["panic"]}, key="frontend-panic:" + panic_class(msg))
     # (3) the driver
     cases = [("missing.dora", None), ("empty.dora", ""), ("binary.dora", None), ("dir.dora", None)]
     ddir = os.path.join(ctx.work, "driver")
@@ -113,7 +167,7 @@ def run(ctx):
             ctx.violation(f"`dora compile` on {os.path.basename(path)}: {'time-out' if getattr(p, 'timed_out', False) else 'rc=%s' % p.returncode}; output {out[-500:]!r}",
                           {"path": path, "output": out[-3000:]}, key="driver:" + os.path.basename(path).split("_")[-1])
     ctx.cov["distinct_nontrivial"] = s["inputs"] // 8 + len(listing)
-    ctx.cov["rule"] = "token soups: every sequence of <= k texts from the 54-token alphabet (distinct by sequence) x 8 context templates; corpus: seeded files + mutants (kinds: " + ",".join(sorted(kinds)) + "); driver: special files + sampled mutants"
+    ctx.cov["rule"] = "token soups: every sequence of <= k texts from the 54-token alphabet (distinct by sequence) x 8 context templates; corpus: seeded files + mutants (kinds: " + ",".join(sorted(kinds)) + "); literal spellings (radix prefixes x digit strings x suffixes, chars, strings, templates, unterminated forms) x 16 positions; driver: special files + sampled mutants"
     ctx.sample({"soup": "fn f() { x . }", "outcome": "diagnostics"})
     ctx.sample({"driver": "dora compile -c missing.dora", "outcome": "error: file does not exist"})
 
